@@ -1,0 +1,50 @@
+// SPDX-FileCopyrightText: 2026 The Pion community <https://pion.ly>
+// SPDX-License-Identifier: MIT
+
+//go:build verif && !js
+
+package webrtc
+
+import (
+	"sync/atomic"
+
+	"github.com/pion/sdp/v3"
+)
+
+// VerifOrigin is a bare sdp.Origin as a PeerConnection holds it in pc.sdpOrigin (both cells zero),
+// shared by any number of goroutines of the verification harness (C11).
+type VerifOrigin struct {
+	origin sdp.Origin
+}
+
+// NewVerifOrigin returns the origin of a new PeerConnection.
+func NewVerifOrigin() *VerifOrigin {
+	return &VerifOrigin{}
+}
+
+// Update runs updateSDPOrigin for a freshly generated description whose origin is
+// (sessionID, sessionVersion) and returns the origin the description carries afterwards.
+func (v *VerifOrigin) Update(sessionID, sessionVersion uint64) (id, version uint64) {
+	descr := &sdp.SessionDescription{Origin: sdp.Origin{
+		Username:       "-",
+		SessionID:      sessionID,
+		SessionVersion: sessionVersion,
+		NetworkType:    "IN",
+		AddressType:    "IP4",
+		UnicastAddress: "0.0.0.0",
+	}}
+	updateSDPOrigin(&v.origin, descr)
+
+	return descr.Origin.SessionID, descr.Origin.SessionVersion
+}
+
+// Cells reads the two shared cells (session id, session version).
+func (v *VerifOrigin) Cells() (id, version uint64) {
+	return atomic.LoadUint64(&v.origin.SessionID), atomic.LoadUint64(&v.origin.SessionVersion)
+}
+
+// Unstick stores a non-zero session id if the cell is still zero, so that goroutines left in the
+// load loop at the end of a run (a winner that never stored, or one whose id was zero) can return.
+func (v *VerifOrigin) Unstick() {
+	atomic.CompareAndSwapUint64(&v.origin.SessionID, 0, ^uint64(0))
+}
